@@ -62,6 +62,9 @@ def make_family():
         wl = S.MM2(*dims)
         add(f"MM2-{tag}/tight", wl, size=sized(wl, 0.3))
         add(f"MM2-{tag}/mid", wl, size=sized(wl, 0.6))
+    # perfect-square rank sizes whose optimum uses the square-root tile shape
+    add("MM1-444/s96", S.MM1(4, 4, 4), size=96)
+    add("MM1-933/s160", S.MM1(9, 3, 3), size=160)
     # a buffer that holds a single value: templates without free tile shapes overflow it
     add("MV2-222/s8", S.MV2(2, 2, 2), size=8)
     # shapes whose optimum tiles the intermediate along TWO rank variables (two fused loops)
